@@ -14,6 +14,15 @@ from ..report import Evidence, Violation, finish
 
 RST = 5000
 
+CHECKS = {
+    'C10': dict(
+        engine='Framing',
+        technique='TLA+ spec Framing.tla model-checked with TLC (all segmentations x truncation offsets); TLC-enumerated behaviours replayed on the real recv_msg via a scripted socket; TLC judges every real execution (FramingJudge) and validates every recv() log against the spec (FramingTrace)',
+        text='Exhaustive TLC model checking of the receiver algorithm over every segmentation and truncation point of short streams, bound to the code in both directions: all 27k TLC behaviours are forced onto the real recv_msg and each real recv() log must be a behaviour of the spec. Long streams (to 520 KB) by TLC simulation and seeded cuts.',
+        note='Trusted: TLC, the scripted socket (reliable byte stream that may end with FIN/RST), abstraction of payload bytes to message identity. Exhaustive only for streams <= 26 bytes.',
+        design_ref='6/C10'),
+}
+
 
 class Spin(BaseException):
     pass
